@@ -37,6 +37,7 @@ def _spec(draw):
       'report': draw(st.sampled_from(['last', 'all'])),
       'time': draw(st.integers(-3, 25)),
       'refit': draw(st.booleans()),
+      'scribble': draw(st.booleans()),
   }
 
 
@@ -80,6 +81,7 @@ def run(spec):
   det = {'n_pre': fs['n_pre'], 'n_an': n_an, 'level': spec['level'], 'tails': spec['tails'], 'rescale': spec['rescale'],
          'cooldown': spec['use_cooldown']}
   df_before = df.copy(deep=True)
+  df_in = df.copy(deep=True) if spec.get('scribble') else df
   try:
     if spec.get('refit'):
       # 'refit' flavour: the model object has already analysed another frame (other totals, other shape) and been queried
@@ -88,11 +90,17 @@ def run(spec):
       m = fit_tbr(df_o, kw_o, target, spec['use_cooldown'])
       m.summary(level=0.8, tails=2, rescale=0.25, report='all')
       m.causal_cumulative_distribution(rescale=4.0)
-      m.fit(df, target, **kwargs)
+      m.fit(df_in, target, **kwargs)
       m.summary(level=spec['level'], rescale=spec['rescale'] * 2, tails=spec['tails'])
       cls.append('refit')
     else:
-      m = fit_tbr(df, kwargs, target, spec['use_cooldown'])
+      m = fit_tbr(df_in, kwargs, target, spec['use_cooldown'])
+    if spec.get('scribble'):
+      # the caller keeps editing its own frame after fit() and before the reports
+      if not df_in.equals(df_before):
+        viol.append(('C06:input-frame-modified', det))
+      frames.scribble(df_in, truth['names'])
+      cls.append('caller-edits-frame-after-fit')
     if not df.equals(df_before):
       viol.append(('C06:input-frame-modified', det))
     dist = m.causal_cumulative_distribution()
@@ -109,6 +117,17 @@ def run(spec):
         viol.append(('C06:location', dict(det, got=loc[:3].tolist(), want=post.loc[:3].tolist())))
       if not util.deep_eq(sc, post.scale, 1e-8):
         viol.append(('C06:scale', dict(det, got=sc[:3].tolist(), want=post.scale[:3].tolist())))
+      # periods given explicitly: the test period alone, as a tuple and as a bare label (documented: int or iterable of int)
+      pre_t, an_t = frames.masks(truth, False)
+      if int(an_t.sum()) >= 1:
+        post_t = tbrref.Posterior(X[pre_t], Y[pre_t], X[an_t], Y[an_t])
+        lab_test = truth['labels']['period_test']
+        for form, per in (('tuple', (lab_test,)), ('bare-label', lab_test)):
+          d_t = m.causal_cumulative_distribution(periods=per)
+          loc_t, sc_t = np.asarray(d_t.kwds['loc'], float).ravel(), np.asarray(d_t.kwds['scale'], float).ravel()
+          if loc_t.shape != post_t.loc.shape or not (util.deep_eq(loc_t, post_t.loc, 1e-8, tol_abs) and util.deep_eq(sc_t, post_t.scale, 1e-8)):
+            viol.append(('C06:explicit-periods', dict(det, form=form, label=lab_test, got_days=int(loc_t.shape[0]), want_days=int(post_t.loc.shape[0]))))
+        cls.append('explicit-periods')
       # time=t picks day t
       t = spec['time']
       if -n_an <= t < n_an:
